@@ -172,8 +172,8 @@ P['C16']={
  "locks":True,
  "kinds":["guard","lockorder","lockbalance","pre@call","cover"],
  "refines":[MS+m for m in METHS]+[RS+m for m in METHS]+["oidc.sessionStoreFactory.Get", T+"LoadTLSConfig", "oidc.DefaultJWKSProvider.Get"],
- "functions":["oidc.memoryStore.RemoveAllExpired",T+"LoadTLSConfig",T+"updateCA","k8s.SecretController.Reconcile","server.ExtAuthZFilter.Check",H+"Process",H+"redirectToIDP",H+"retrieveTokens",H+"refreshToken","http.NewHTTPClient","oidc.DefaultJWKSProvider.fetchStatic","oidc.NewRedisStore","oidc.NewMemoryStore","internal.FileWatcher.WatchFile"],
- "sweep":["oidc.GetWellKnownConfig","authz.loadWellKnownConfig","internal.Logger"],
+ "functions":["oidc.memoryStore.RemoveAllExpired","oidc.GetWellKnownConfig","authz.loadWellKnownConfig",T+"LoadTLSConfig",T+"updateCA","k8s.SecretController.Reconcile","server.ExtAuthZFilter.Check",H+"Process",H+"redirectToIDP",H+"retrieveTokens",H+"refreshToken","http.NewHTTPClient","oidc.DefaultJWKSProvider.fetchStatic","oidc.NewRedisStore","oidc.NewMemoryStore","internal.FileWatcher.WatchFile"],
+ "sweep":["internal.Logger"],
  "required":[MS+"GetTokenResponse:guard:internal_oidc_memoryStore.sessions.mapread", MS+"SetTokenResponse:guard:internal_oidc_memoryStore.sessions.mapwrite", MS+"RemoveSession:lockbalance:", MS+"GetTokenResponse:lockorder:acquire", T+"LoadTLSConfig:guard:internal_tlsConfigPool.configs.mapread", T+"LoadTLSConfig:guard:internal_tlsConfigPool.configs.mapwrite", T+"updateCA:guard:crypto_tls_Config.RootCAs.frozen-write", "k8s.SecretController.Reconcile:guard:config_gen_go_v1_oidc_OIDCConfig.ClientSecretConfig.frozen-write", "oidc.GetWellKnownConfig:guard:internal_oidc_wellKnownConfigs", "authz.loadWellKnownConfig:guard:config_gen_go_v1_oidc_OIDCConfig.TokenUri.frozen-write", H+"Process:lockbalance:", "internal.FileWatcher.WatchFile:lockbalance:", "internal.FileWatcher.WatchFile:guard:internal_FileWatcher.watchers.mapwrite"],
  "note":"lock discipline over a hand-written inventory of shared locations: guarded locations are touched only under their lock, frozen locations are never written once shared, locks are never nested and every function returns with the locks it was entered with"}
 K="k8s.SecretController."
@@ -187,8 +187,9 @@ P['C18']={
  "functions":["oidc.sessionStoreFactory.PreRun","oidc.NewMemoryStore"],
  "refines":["oidc.sessionStoreFactory.Get"],
  "posts":{A+"getCookieName":[], H+"Process":["ok_justified","ok_not_timed_out","deny_content"], H+"retrieveTokens":["exchange_request"], H+"refreshToken":["request"], H+"redirectToIDP":["location","redirect"],
-   "server.ExtAuthZFilter.Check":["judged"], A+"NewOIDCHandler":["handler","client"]},
- "required":["server.ExtAuthZFilter.Check:inv-step:loop2.logged", A+"NewOIDCHandler:post:handler", "oidc.sessionStoreFactory.PreRun:post:timeouts_wired_single", "oidc.sessionStoreFactory.PreRun:post:timeouts_wired@", "oidc.sessionStoreFactory.PreRun:inv-step:loop2.wired2", "oidc.sessionStoreFactory.PreRun:inv-step:loop2.cur_wired","oidc.sessionStoreFactory.PreRun:post:exclusive","oidc.sessionStoreFactory.Get:refine:SessionStoreFactory.Get.which"],
+   "server.ExtAuthZFilter.Check":["judged"], A+"NewOIDCHandler":["handler","client"],
+   A+"loadWellKnownConfig":["discovered","undiscovered"], "oidc.GetWellKnownConfig":["discovered","cache_ok"]},
+ "required":["oidc.GetWellKnownConfig:post:discovered", "oidc.GetWellKnownConfig:post:cache_ok", A+"loadWellKnownConfig:post:discovered", "server.ExtAuthZFilter.Check:inv-step:loop2.logged", A+"NewOIDCHandler:post:handler", "oidc.sessionStoreFactory.PreRun:post:timeouts_wired_single", "oidc.sessionStoreFactory.PreRun:post:timeouts_wired@", "oidc.sessionStoreFactory.PreRun:inv-step:loop2.wired2", "oidc.sessionStoreFactory.PreRun:inv-step:loop2.cur_wired","oidc.sessionStoreFactory.PreRun:post:exclusive","oidc.sessionStoreFactory.Get:refine:SessionStoreFactory.Get.which"],
  "note":"own endpoints / credentials / cookie prefix: every IdP request, redirect and cookie is pinned to the handler's own configuration by the C04/C11/C13/C05 postconditions; which store (with which timeouts) a filter gets is PreRun's postcondition — it holds for configurations with a single OIDC filter and fails otherwise (known finding K3)"}
 P['C03']={
  "posts":{
